@@ -102,11 +102,13 @@ def shadowed_arms(prog: Program, fi: FuncInfo
                 covered = [c for c in classes
                            if any(c == b or is_sub(prog, c, b)
                                   for b in classes_i)]
-                if len(covered) == len(classes):
+                if covered:
                     bad.append((arm, "isinstance({}, {}) comes after "
                                 "isinstance({}, {}), which already accepts "
-                                "every such object".format(
+                                "every {}: for that class this arm never "
+                                "runs".format(
                                     subj, "/".join(classes), subj,
-                                    "/".join(classes_i))))
+                                    "/".join(classes_i),
+                                    "/".join(covered))))
                     break
     return bad, n
